@@ -67,11 +67,29 @@ class Tape(progs.RealExec):
             if rec is not None:
                 for j, (v, old) in enumerate(zip(op.variables, rec[1])):
                     if v.data.shape != old.shape or not np.array_equal(v.data, old):
-                        bad.append((type(op).__name__, j))
+                        if _backward_reads(op, j):
+                            bad.append((type(op).__name__, j))
             stack.extend(op.variables)
             if len(seen) > 500:
                 break
         return bad
+
+
+# Ops of the program fragment whose backward rule never reads the *values* of its inputs (linear maps, index maps):
+# a changed input of such an op cannot make backward() use "values other than those of the forward pass".
+_VALUE_FREE = {"Add", "Subtract", "Negative", "Positive", "Sum", "GetItem", "Reshape", "Transpose", "Tensor_Transpose_Property",
+               "ExpandDims", "Squeeze", "BroadcastTo", "SetItem", "UnView", "ApplyMask", "Flatten", "Ravel", "SwapAxes", "MoveAxis"}
+
+
+def _backward_reads(op, j):
+    """does op.backward read the value of variable j in order to produce the gradient of a non-constant variable?"""
+    name = type(op).__name__
+    if name in _VALUE_FREE:
+        return False
+    if name == "Multiply":
+        # d/d(var k) = grad * value of the other variable
+        return any(k != j and not v.constant for k, v in enumerate(op.variables))
+    return not all(v.constant for v in op.variables)  # Square and anything else: assume it does
 
 
 def oracle_at(prog):
